@@ -1,7 +1,10 @@
-(* Actual/OrchParActual.v — the quirk vector claimed for the current tree (hand-maintained; tied to the
+(* Actual/OrchParActual.v — the quirk vector claimed for the current tree: every flag says "as in the source",
+   so the faithful model follows the generated layer (parent_collects_evidence, parent_exclusion_like_lint_file,
+   worker_reraises / extract_reraises) (hand-maintained; tied to the
    code by the correspondence check of ./check C07 and listed flag by flag in known.d/C07.json). *)
 From TL Require Import Lib.Base Model.OrchPar.
 
 Definition orchpar_actual : pquirks := {|
   q_par_crossfile_lost := true;
+  q_parent_evidence_raw_path := true;
   q_worker_swallows_errors := true |}.
